@@ -42,6 +42,7 @@ _op = st.one_of(
     st.tuples(st.just("use"), _ci, _ci, st.lists(st.tuples(_name, _mk).map(list), min_size=1, max_size=4), st.sampled_from(["plain", "paren", "adjacent", "where", "param"])).map(list),
     st.tuples(st.just("repeat"), _ci, _ci).map(list),
     st.tuples(st.just("repeat"), _ci, _ci).map(list),
+    st.tuples(st.just("script"), _ci, _ci, _name, _mk, _value, st.sampled_from(["set-use", "set-set-use", "unset-use", "use-only"])).map(list),
     st.tuples(st.just("literal"), _ci, _ci, st.sampled_from(["dollar-quoted", "plain-no-dollar", "dollar-in-literal", "dollar-digit-in-literal", "double-dollar-in-literal"]), st.text(alphabet="abc 1", max_size=4)).map(list),
 )
 
@@ -209,6 +210,52 @@ def run_vars(case, ctx: Ctx) -> None:
                     continue
                 if len(o.rows) != 1 or len(o.rows[0]) != len(want_row) or not all(same_value(g, w) for g, w in zip(o.rows[0], want_row)):
                     ctx.fail(f"C15|use|wrong-value|{disc}", f"{sql} with {{{', '.join(f'{k}={v[1]!r}' for k, v in sorted(m.items()))}}} returned {o.rows!r}, want {[tuple(want_row)]!r}")
+            elif kind == "script":
+                # the same statements handed to execute_string in one text: each statement sees the variables as the ones before it left them
+                name = _mask(NAMES_[op[3] % len(NAMES_)], op[4])
+                sqlv, pyv = _sql_value(op[5])
+                mode = op[6]
+                if _value_class(op[5]) in ("dollar", "backslash") or (op[5]["k"] == "str" and any(ch in op[5]["v"] for ch in ";'\n-%")):
+                    continue  # how execute_string re-renders such literals is C16's subject (and a listed finding there)
+                ref = _mask(NAMES_[op[3] % len(NAMES_)], op[4] ^ 0xFF)
+                if mode == "set-use":
+                    text, expect = f"SET {name} = {sqlv}; SELECT ${ref} AS c0", ("value", pyv)
+                    after = (op[5], pyv)
+                elif mode == "set-set-use":
+                    text, expect = f"SET {name} = 0; SET {ref} = {sqlv};\nSELECT ${name} AS c0;", ("value", pyv)
+                    after = (op[5], pyv)
+                elif mode == "unset-use":
+                    if name.upper() not in m:
+                        continue
+                    text, expect = f"UNSET {name}; SELECT ${ref} AS c0", ("undefined", None)
+                    after = None
+                elif mode == "use-only":
+                    text = f"SELECT 1 AS one; SELECT ${ref} AS c0"
+                    expect = ("value", m[name.upper()][1]) if name.upper() in m else ("undefined", None)
+                    after = m.get(name.upper())
+                else:
+                    raise InvalidCase()
+                ctx.cls(f"script:{mode}")
+                ctx.nontrivial = True
+                try:
+                    cs = list(conns[ci].execute_string(text))
+                    rows, err = cs[-1].fetchall(), None
+                except Exception as e:  # classified below
+                    rows, err = None, e
+                if after is None:
+                    m.pop(name.upper(), None)
+                else:
+                    m[name.upper()] = after
+                if expect[0] == "undefined":
+                    if err is None:
+                        ctx.fail(f"C15|script|undefined-not-rejected|{mode}", f"execute_string({text!r}) returned {rows!r}")
+                    elif not isinstance(err, snowflake.connector.errors.ProgrammingError) or getattr(err, "msg", None) != f"Session variable '${name.upper()}' does not exist":
+                        ctx.fail(f"C15|script|undefined|wrong-error|{mode}|{etype_name(err)}", f"execute_string({text!r}): {err!r}")
+                elif err is not None:
+                    ctx.fail(f"C15|script|raises|{mode}|{etype_name(err)}", f"execute_string({text!r}) with {sorted(m)} defined: {err!r}")
+                    return
+                elif len(rows) != 1 or not same_value(rows[0][0], expect[1]):
+                    ctx.fail(f"C15|script|wrong-value|{mode}", f"execute_string({text!r}) returned {rows!r}, want {expect[1]!r}")
             elif kind == "literal":
                 form, txt = op[3], op[4]
                 ctx.cls(f"literal:{form}")
@@ -248,7 +295,7 @@ PROP = Prop(
                 "Hypothesis draws histories of 2-20/40 ops over 2 connections x 2 cursors: SET/re-SET (ints, decimals, booleans, "
                 "expressions, strings over regex/SQL-special characters), UNSET of defined names, references in select lists (plain, "
                 "parenthesised, adjacent to commas, beside bound parameters, with WHERE), undefined references, and text with $ that is "
-                "not a reference ($$...$$ strings, '$' inside literals). Names come from a pool built to collide (v, v1, v10, v1a, var, "
+                "not a reference ($$...$$ strings, '$' inside literals), and SET/UNSET followed by a reference inside one execute_string text. Names come from a pool built to collide (v, v1, v10, v1a, var, "
                 "VAR, Var1, d, dt, n, nul ...) in random letter case. Oracle: dict per connection keyed by upper-cased name. "
                 "Non-trivial: two live names one a proper prefix of the other, a value with a character special to re/SQL, or two "
                 "connections holding different values for one name."
